@@ -20,6 +20,12 @@ def main():
         names = sorted({o.meta.get('base', o.name) for r in reps for o in r.obligations})
         os.makedirs(os.path.join(env.VERIF, 'pv', 'expected'), exist_ok=True)
         json.dump(names, open(os.path.join(env.VERIF, 'pv', 'expected', a.prop + '.json'), 'w'), indent=0)
+        lp = os.path.join(env.VERIF, 'pv', 'expected', 'loops.json')
+        loops = json.load(open(lp)) if os.path.exists(lp) else {}
+        for r in reps:
+            if getattr(r, 'loop_headers', None):
+                loops['%s::%s' % (r.rel, r.qual)] = r.loop_headers
+        json.dump(loops, open(lp, 'w'), indent=0, sort_keys=True)
         print('recorded %d expected obligations' % len(names))
         return
     sys.exit(runner.run_property(prop, a.tier))
